@@ -473,7 +473,7 @@ static void child_run (const Scenario * sc, int nthreads, const int *pre, int np
   prefix = pre;
   nprefix = npre;
   v_install_handlers ();
-  alarm (20);
+  alarm (120);	/* wall-clock backstop only (deadlocks are detected by the scheduler itself) */
   if (sc->pre_init) {
     orc_init ();
     if (sc->body == body_run) {
